@@ -113,6 +113,7 @@ def findTail (f : Finder) (hm : Mem) (needle : Slice) (start end_ max cur : Nat)
     dbgAssert "find: max < cur" (max < cur)
     let overlap ← hm.distance "find: cur.distance(max)" cur max
     dbgAssert "find: overlap > 0" (overlap > 0)
+    if overlap ≥ V.bytes then pure none else
     dbgAssert "find: overlap < V::BYTES" (overlap < V.bytes)
     let mask ← V.allExceptLS overlap
     let cur := max
